@@ -5,7 +5,8 @@
      pipeline_conn.go       pipelineConn.exchange               (select: ctx.Done | c.ctx.Done | respChan)
                             closeWithErr                        (cancels the connection context)
      connpool/pool.go       Pool.Get / dialingCall.waitConn     (select: ctx.Done | deliverNotify)
-     reuse_transport.go     ReuseConnTransport.ExchangeContext  (retry <= 5, isNewConn)
+     reuse_transport.go     ReuseConnTransport.ExchangeContext  (retry <= 5, isNewConn; `if retry <= 5 { getIdleConn }`:
+                                                                the last attempt dials — fix of finding K7)
                             asyncDial                           (select: callCtx.Done | dialChan)
                             exchangeConnCtx                     (select: resChan | ctx.Done; worker has a 6 s I/O deadline)
      quic_transport.go      exchangePayload                     (retry < 5, newConn), dialingQuicCall.wait, exchangeStream
@@ -30,6 +31,12 @@ Inductive tkind := TPipe | TReuse | TQuic | TDoH.
 (* Go: pipeline `retry < 5`, reuse `retry <= 5`, quic `retry < 5`; DoH has no loop. A retry is allowed iff retry < limit. *)
 Definition retry_limit (tk : tkind) : nat :=
   match tk with TPipe => 5 | TReuse => 6 | TQuic => 5 | TDoH => 0 end.
+
+(* ReuseConnTransport.ExchangeContext: `if retry <= 5 { c, err = t.getIdleConn() }` — once the retry budget is spent
+   the idle set is not consulted any more and the last attempt is made on a freshly dialled connection.
+   (Before the fix of K7 this was [false] for every transport.) The pool of the pipelined transport and the single
+   cached QUIC connection never hand out a connection they know to be closed, which is what bounds them. *)
+Definition last_attempt_dials (tk : tkind) : bool := match tk with TReuse => true | _ => false end.
 
 (* pipelineConn.exchange selects on the connection context; the others learn of a dead connection through the
    worker goroutine's I/O error posted on resChan *)
@@ -116,7 +123,8 @@ Definition step (tk : tkind) (s : state) (l : label) : option state :=
       | TDoH, false => (* the request goroutine is spawned; connections are net/http's business *)
           Some (mkSt (retry s) (ctxd s) false (PWait true None) (dials s) (S (attempts s)) (fails s) (g_fresh_fail s) (g_dial_fail s) (g_get_err s))
       | _, true =>
-          Some (mkSt (retry s) (ctxd s) false (PWrite false) (dials s) (S (attempts s)) (fails s) (g_fresh_fail s) (g_dial_fail s) (g_get_err s))
+          if last_attempt_dials tk && (retry_limit tk <=? retry s) then None
+          else Some (mkSt (retry s) (ctxd s) false (PWrite false) (dials s) (S (attempts s)) (fails s) (g_fresh_fail s) (g_dial_fail s) (g_get_err s))
       | _, false =>
           Some (mkSt (retry s) (ctxd s) false (PDialWait None) (S (dials s)) (S (attempts s)) (fails s) (g_fresh_fail s) (g_dial_fail s) (g_get_err s))
       end
@@ -216,17 +224,17 @@ Fixpoint run_labels (fuel : nat) (tk : tkind) (s : state) (pool dialf : list fau
     match pcv s with
     | PRet _ => []
     | PGet =>
-      match tk, pool with
-      | TDoH, _ | _, [] =>
-          match step tk s (AGet false) with
-          | Some s' => AGet false :: run_labels n tk s' pool (tl dialf) (hd FNone dialf)
-          | None => []
-          end
-      | _, f :: pool' =>
-          match step tk s (AGet true) with
-          | Some s' => AGet true :: run_labels n tk s' pool' dialf f
-          | None => []
-          end
+      let dial := match step tk s (AGet false) with
+                  | Some s' => AGet false :: run_labels n tk s' pool (tl dialf) (hd FNone dialf)
+                  | None => []
+                  end in
+      (* is the pool consulted at all? (decided before looking at the script) *)
+      match step tk s (AGet true) with
+      | None => dial
+      | Some s' => match pool with
+                   | f :: pool' => AGet true :: run_labels n tk s' pool' dialf f
+                   | [] => dial
+                   end
       end
     | _ =>
       match sched tk s cur with
